@@ -48,6 +48,13 @@ func (x *Exec) stmt(s ast.Stmt, st *State, cx *Ctx, k func(*State)) {
 	case *ast.BlockStmt:
 		x.stmts(s.List, st, cx, k)
 	case *ast.ExprStmt:
+		if call, ok := ast.Unparen(s.X).(*ast.CallExpr); ok {
+			if lit, ok := ast.Unparen(call.Fun).(*ast.FuncLit); ok && len(call.Args) == 0 && lit.Type.Results == nil {
+				inner := &Ctx{onReturn: func(s3 *State, _ []Val) { k(s3) }}
+				x.stmts(lit.Body.List, st, inner, k)
+				return
+			}
+		}
 		x.evalMulti(st, s.X)
 		k(st)
 	case *ast.DeclStmt:
@@ -117,8 +124,22 @@ func (x *Exec) stmt(s ast.Stmt, st *State, cx *Ctx, k func(*State)) {
 		k(st)
 	case *ast.SelectStmt:
 		x.selectStmt(s, st, cx, k)
+	case *ast.SwitchStmt:
+		x.switchStmt(s, st, cx, k)
+	case *ast.LabeledStmt:
+		// labels are accepted as long as no labelled branch refers to them (checked at the branch)
+		x.stmt(s.Stmt, st, cx, k)
 	case *ast.DeferStmt:
 		call := s.Call
+		if lit, ok := ast.Unparen(call.Fun).(*ast.FuncLit); ok && len(call.Args) == 0 && lit.Type.Results == nil {
+			// defer func() { ... }(): the body runs at return, in this function's scope
+			st.defers = append(st.defers, deferred{run: func(s2 *State, x *Exec, k2 func(*State)) {
+				inner := &Ctx{onReturn: func(s3 *State, _ []Val) { k2(s3) }}
+				x.stmts(lit.Body.List, s2, inner, k2)
+			}})
+			k(st)
+			return
+		}
 		st.defers = append(st.defers, deferred{run: func(s2 *State, x *Exec, k2 func(*State)) {
 			if fn := x.staticCallee(call); fn != nil && fn.Pkg() != nil && fn.Pkg().Path() == x.fn.pkgPath() {
 				key := funcKeyOf(fn)
@@ -189,6 +210,18 @@ func (x *Exec) assign(st *State, s *ast.AssignStmt) {
 			op = token.QUO
 		case token.REM_ASSIGN:
 			op = token.REM
+		case token.SHL_ASSIGN:
+			op = token.SHL
+		case token.SHR_ASSIGN:
+			op = token.SHR
+		case token.AND_ASSIGN:
+			op = token.AND
+		case token.OR_ASSIGN:
+			op = token.OR
+		case token.XOR_ASSIGN:
+			op = token.XOR
+		case token.AND_NOT_ASSIGN:
+			op = token.AND_NOT
 		default:
 			x.unsupported(s, "assignment operator "+s.Tok.String())
 			return
@@ -317,6 +350,63 @@ type bePath struct {
 	polls []poll
 	trail []string
 	kind  string // for: needs the stop rule; range: bounded, exempt
+}
+
+// switchStmt executes an expression switch (with or without tag) as a chain of tests.
+func (x *Exec) switchStmt(s *ast.SwitchStmt, st *State, cx *Ctx, k func(*State)) {
+	run := func(st *State) {
+		var tag *Val
+		if s.Tag != nil {
+			v := x.eval(st, s.Tag)
+			tag = &v
+		}
+		inner := *cx
+		inner.onBreak = k
+		var deflt *ast.CaseClause
+		cur := st
+		for i, cl := range s.Body.List {
+			cc := cl.(*ast.CaseClause)
+			if cc.List == nil {
+				deflt = cc
+				continue
+			}
+			var alts []string
+			for _, e := range cc.List {
+				v := x.eval(cur, e)
+				if tag != nil {
+					if tag.S == "Slice" || v.S != tag.S {
+						x.unsupported(e, "switch case of a different sort")
+						continue
+					}
+					alts = append(alts, app("=", tag.T, v.T))
+				} else {
+					alts = append(alts, v.T)
+				}
+			}
+			for _, b := range cc.Body {
+				if br, ok := b.(*ast.BranchStmt); ok && br.Tok == token.FALLTHROUGH {
+					x.unsupported(br, "fallthrough")
+				}
+			}
+			cond := or(alts...)
+			taken := cur.fork()
+			taken.assume(cond)
+			taken.note(fmt.Sprintf("switch@%s:case%d", x.line(s), i))
+			x.stmts(cc.Body, taken, &inner, k)
+			cur.assume(not(cond))
+		}
+		cur.note(fmt.Sprintf("switch@%s:default", x.line(s)))
+		if deflt != nil {
+			x.stmts(deflt.Body, cur, &inner, k)
+		} else {
+			k(cur)
+		}
+	}
+	if s.Init != nil {
+		x.stmt(s.Init, st, cx, run)
+	} else {
+		run(st)
+	}
 }
 
 // spawn checks the callee's precondition at a go statement.
@@ -598,10 +688,33 @@ func (x *Exec) loop(s ast.Stmt, st *State, cx *Ctx, k func(*State)) {
 				x.unsupported(s, "range over "+rt.String())
 			}
 		}
+		// a counted loop "for id := start; ...; id++" also has an iteration index $i = id - start
+		var counter types.Object
+		var counterStart string
+		if forS != nil && forS.Init != nil && forS.Post != nil {
+			if as, ok := forS.Init.(*ast.AssignStmt); ok && as.Tok == token.DEFINE && len(as.Lhs) == 1 {
+				if id, ok := as.Lhs[0].(*ast.Ident); ok {
+					if inc, ok := forS.Post.(*ast.IncDecStmt); ok && inc.Tok == token.INC {
+						if pid, ok := inc.X.(*ast.Ident); ok && pid.Name == id.Name {
+							if o := x.info().Defs[id]; o != nil {
+								if v, ok := st.vars[o]; ok && v.S == "Int" {
+									counter, counterStart = o, v.T
+								}
+							}
+						}
+					}
+				}
+			}
+		}
 		envAt := func(st *State, hid map[string]Val) *SEnv {
 			b := map[string]Val{}
 			for k, v := range hid {
 				b[k] = v
+			}
+			if counter != nil {
+				if v, ok := st.vars[counter]; ok {
+					b["$i"] = Val{T: app("-", v.T, counterStart), S: "Int"}
+				}
 			}
 			if kind == "slice" || kind == "int" || kind == "map" {
 				b["$range"] = rangeVal
